@@ -6,7 +6,7 @@ CONSTANTS
    LvlFirst = {2, 5}
    LvlMid = {3}
    ClsFirst <- Cls_26_1
-   LvlLast = {1, 4}
+   LvlLast = {4}
    FullLast = FALSE
    ClsLast <- Cls_6_none_34
    SetWhenFull = TRUE
